@@ -165,21 +165,52 @@ class _FakePsutilInstalled(object):
 
 
 class _FakePwd(object):
-    """pwd.getpwall() answers with the two users of the virtual machine while main() runs (trash-empty / trash-list
-    --all-users walk the password database): the invoking user (uid of the run, home /h) and 'other' (uid + 1, home /h2)"""
+    """the password / group database of the virtual machine while main() runs: pwd.getpwall() lists two users (the
+    invoking uid with home /h, uid + 1 with home /h2; trash-empty / trash-list --all-users walk it); pwd.getpwuid and
+    grp.getgrgid know these two and root - or nobody at all when the scenario says passwd=False (a container started
+    with an arbitrary --user: the owner of every file has no entry).  Names imported with `from pwd import getpwuid`
+    in trashcli modules are re-bound too."""
 
     def __enter__(self):
         import collections
+        import grp
         import pwd
-        self.saved = pwd.getpwall
         ent = collections.namedtuple('struct_passwd', ['pw_name', 'pw_passwd', 'pw_uid', 'pw_gid', 'pw_gecos', 'pw_dir', 'pw_shell'])
+        gent = collections.namedtuple('struct_group', ['gr_name', 'gr_passwd', 'gr_gid', 'gr_mem'])
         uid = getattr(ENV, 'uid', None) or 1000
-        pwd.getpwall = lambda: [ent('user', 'x', uid, uid, '', '/h', '/bin/sh'), ent('other', 'x', uid + 1, uid + 1, '', '/h2', '/bin/sh')]
+        users = {uid: ent('user', 'x', uid, uid, '', '/h', '/bin/sh'), uid + 1: ent('other', 'x', uid + 1, uid + 1, '', '/h2', '/bin/sh'),
+                 0: ent('root', 'x', 0, 0, '', '/root', '/bin/sh')}
+        known = getattr(ENV, 'passwd', True)
+
+        def getpwall():
+            return [users[uid], users[uid + 1]]
+
+        def getpwuid(u):
+            if not known or u not in users:
+                raise KeyError('getpwuid(): uid not found: %s' % (u,))
+            return users[u]
+
+        def getgrgid(g):
+            if not known or g not in users:
+                raise KeyError('getgrgid(): gid not found: %s' % (g,))
+            return gent(users[g].pw_name, 'x', g, [])
+        self.real = {'getpwall': pwd.getpwall, 'getpwuid': pwd.getpwuid, 'getgrgid': grp.getgrgid}
+        fake = {'getpwall': getpwall, 'getpwuid': getpwuid, 'getgrgid': getgrgid}
+        self.rebound = []
+        pwd.getpwall, pwd.getpwuid, grp.getgrgid = getpwall, getpwuid, getgrgid
+        for mod in trashcli_modules():
+            for name, real in self.real.items():
+                if getattr(mod, name, None) is real:
+                    setattr(mod, name, fake[name])
+                    self.rebound.append((mod, name))
         return self
 
     def __exit__(self, *a):
+        import grp
         import pwd
-        pwd.getpwall = self.saved
+        pwd.getpwall, pwd.getpwuid, grp.getgrgid = self.real['getpwall'], self.real['getpwuid'], self.real['getgrgid']
+        for mod, name in self.rebound:
+            setattr(mod, name, self.real[name])
         return False
 
 
@@ -287,10 +318,10 @@ def _main_of(cmd):
     return m.main
 
 
-def C(cmd, args=(), env=None, uid=1000, stdin=(), now='2020-01-02T03:04:05', rand=(7,), cwd=None, tty=False):
+def C(cmd, args=(), env=None, uid=1000, stdin=(), now='2020-01-02T03:04:05', rand=(7,), cwd=None, tty=False, passwd=True):
     """command spec (JSON-able)"""
     return {'cmd': cmd, 'args': list(args), 'env': dict(env or {}), 'uid': uid, 'stdin': list(stdin),
-            'now': now, 'rand': list(rand), 'cwd': cwd, 'tty': tty}
+            'now': now, 'rand': list(rand), 'cwd': cwd, 'tty': tty, 'passwd': passwd}
 
 
 class Result(object):
@@ -310,6 +341,8 @@ def _prepare(spec, mounts):
     # (the instant may carry a fraction of a second, as a real clock does: '2020-06-15T12:00:00.500000')
     ENV.now = _real_datetime.datetime.strptime(spec['now'], EPOCH_FMT + ('.%f' if '.' in spec['now'] else ''))
     ENV.rand = list(spec['rand']) or [7]
+    ENV.passwd = spec.get('passwd', True)
+    ENV.uid = spec.get('uid', 1000)
     ENV.rand_calls = 0
     ENV.stdin = list(spec['stdin'])
     ENV.mounts = list(mounts)
